@@ -14,7 +14,7 @@ o6 == Obj(<< <<ka, u2>>, <<kb, sab>> >>)
 o4 == Obj(<< <<ka, Arr(<<u1, u2>>)>>, <<kb, Obj(<< <<ka, sa>> >>)>> >>)
 PathDocs ==
   {Null, u1, sab, True, Arr(<<>>), Obj(<<>>), Arr(<<u1>>), Arr(<<u1, u2, u256>>), Arr(<<Null, True, False, sEmpty>>),
-   Arr(<<sa, sab, sb>>), Arr(<<o1, o2, o3>>), Arr(<<o5, o2, o1, o6>>), Arr(<<o1, u1, o4, Arr(<<u2, o2>>)>>), o1, o2, o4,
+   Arr(<<sa, sab, sb>>), Arr(<<o1, o2, o3>>), Arr(<<o5, o2, o1, o6>>), Arr(<<u1, sab, u256, sa>>), Arr(<<o1, u1, o4, Arr(<<u2, o2>>)>>), o1, o2, o4,
    Obj(<< <<ka, Arr(<<o1, o2>>)>>, <<kb, u2>> >>), Obj(<< <<ka, Obj(<< <<ka, Obj(<< <<ka, u1>> >>)>> >>)>> >>),
    Arr(<<Arr(<<u1, u2>>), Arr(<<>>), Arr(<<u256>>)>>), Obj(<< <<kEmpty, u1>>, <<kE, Arr(<<i1, f1, u1>>)>> >>),
    Arr(<<u2p53, u2p53p1, f2p53>>), Arr(<<im1, u0, fm0, f15>>),
@@ -39,6 +39,7 @@ Indices ==
   {<<AiI(IxN(0))>>, <<AiI(IxN(1))>>, <<AiI(IxN(-1))>>, <<AiI(IxL(0))>>, <<AiI(IxL(-1))>>, <<AiI(IxL(1))>>,
    <<AiI(IxN(2)), AiI(IxN(0))>>, <<AiI(IxN(0)), AiI(IxN(0))>>, <<AiS(IxN(0), IxL(0))>>, <<AiS(IxN(1), IxL(-1))>>,
    <<AiS(IxL(-1), IxN(5))>>, <<AiS(IxN(2), IxN(1))>>, <<AiS(IxN(-2), IxN(1))>>, <<AiS(IxL(-1), IxL(0)), AiI(IxN(0))>>,
+   <<AiI(IxN(0)), AiI(IxN(2)), AiI(IxN(1)), AiI(IxN(3))>>, <<AiI(IxN(0)), AiI(IxN(1)), AiI(IxN(1)), AiI(IxN(3))>>, <<AiS(IxN(1), IxN(2)), AiI(IxN(0)), AiI(IxL(0))>>,
    <<AiI(IxN(IntMax))>>, <<AiI(IxN(IntMin))>>, <<AiI(IxL(IntMin))>>, <<AiS(IxN(0), IxN(IntMax))>>, <<AiS(IxN(IntMin), IxL(0))>>}
 \* forms whose resolution needs more than 32 bits: last + v - 1 with v near the ends of the range
 ExtremeIndices == {<<AiI(IxL(IntMax))>>, <<AiS(IxL(IntMin), IxL(IntMax))>>, <<AiS(IxN(-1), IxN(IntMax))>>}
